@@ -782,7 +782,7 @@ def rule_list_fields_counted(ctx, specs, cfg='prod-all', rule='RF-K'):
             for ap in aps:
                 ok = False
                 for g in ap['gates']:
-                    if g.kind == 'deleg' or not gate_is_comparison(g) or not (g.dom or optional):
+                    if g.kind == 'deleg' or not gate_is_comparison(g) or not (g.dom is True or optional):
                         continue      # (a part of the proof that is present only in one mode of use is examined in that mode only)
                     for a in g.all_atoms():
                         if a[0] not in ('len', 'narrow'):
@@ -881,7 +881,7 @@ def rule_canonical_representatives(ctx, specs, cfg='prod-all', rule='RF-K', skip
                     if lab == 'M':
                         continue
                     for lp in _leaf_of(a, kself, leaves):
-                        if not g.dom and lp not in per_element:
+                        if g.dom is not True and lp not in per_element:
                             continue      # a test on only some of the paths to the accept site (elements of a list are tested inside the loop over the list)
                         if lab == 'R':
                             ring.add(lp)
